@@ -213,6 +213,42 @@ def iadd_set(x):
 def iadd_elem(x):
     o = [x]
     o[0] += (1,)
+# values DERIVED from a frozen value are fresh and mutable; changing them must not show through the frozen value
+def derive_list(x):
+    ys = [x[:], x[0:len(x)], x[1:], x[:-1], x[::1], x[::-1], list(x), x + [], [] + x, x * 1, reversed(x), [e for e in x]]
+    for y in ys:
+        if len(y) > 0:
+            y[0] = "patched"
+            y[-1] = "patched"
+            y.pop(0)
+        y.insert(0, "new")
+        if len(y) > 1:
+            y.pop(1)
+        y.clear()
+    return len(ys)
+def derive_dict(x):
+    ys = [dict(x), x | {}, {} | x, {k: v for k, v in x.items()}, dict(x.items()), dict(**{k: v for k, v in x.items() if type(k) == "string"})]
+    for y in ys:
+        for k in y.keys():
+            y[k] = "patched"
+        y["zz"] = 1
+        if len(y) > 1:
+            y.popitem()
+        y.clear()
+    for l in [x.keys(), x.values(), x.items()]:
+        if len(l) > 0:
+            l[0] = "patched"
+            l.pop()
+        l.clear()
+    return len(ys)
+def derive_set(x):
+    ys = [set(x), x | set(), set() | x, x.union([]), x & x, x - set(), x.intersection(x), x.difference([]), x ^ set()]
+    for y in ys:
+        y.add("zz")
+        if len(y) > 1:
+            y.pop()
+        y.clear()
+    return len(ys)
 def setkey(d): d["zz"] = 1
 def setkey2(d): d["a"] = 5
 def ior(d):
@@ -394,6 +430,16 @@ func c04Run(g *c04Graph, helpers starlark.StringDict) (problems []string, nprobe
 					if after := c04Snap(v); after != before {
 						problems = append(problems, fmt.Sprintf("node %d (%s) is reachable from the globals but %s changed it: %s -> %s", i, kind, m.name, before, after))
 					}
+				}
+				// derived values
+				before := c04Snap(v)
+				_, err := starlark.Call(th2, helpers["derive_"+kind], starlark.Tuple{v}, nil)
+				nprobes++
+				if err != nil {
+					problems = append(problems, fmt.Sprintf("node %d (%s): a value derived from it cannot be mutated: %v", i, kind, err))
+				}
+				if after := c04Snap(v); after != before {
+					problems = append(problems, fmt.Sprintf("node %d (%s) is reachable from the globals but changing a value derived from it changed it: %s -> %s", i, kind, before, after))
 				}
 			} else {
 				nprobes++
